@@ -297,7 +297,8 @@ def coq_make(targets, timeout=3000):
     broken proof does not hide the others. Returns (ok, log)."""
     with Lock("coq"):
         coq_makefile()
-        rc, out, dt = run(["timeout", str(timeout), "make", "-k", "-j%d" % NPROC] + targets, cwd=COQ)
+        # every coqc under its own time limit, so that one runaway file cannot stall a check or the setup
+        rc, out, dt = run(["timeout", str(timeout), "make", "-k", "-j%d" % NPROC, "COQC=timeout 1500 coqc"] + targets, cwd=COQ)
         return rc == 0, out, dt
 
 
